@@ -380,7 +380,8 @@ def _pi_eval_loop(ctx, cls, col):
 # --------------------------------------------------------- outside-the-loop rule
 def _outside_loop(ctx, cls, loop: SolveLoop, col):
     construct = f"{cls.name}.solve"
-    L = loop.loop_carried()
+    # bookkeeping that never flows into results / stopping / saving is not state whose accounting this rule protects
+    L = loop.loop_carried() & loop.relevant_attrs()
     col.saw("loop-carried", f"{cls.name}: {sorted(L)}")
     g = loop.cfg
     pre = [n for n in g.stmts() if n.id not in loop.members and n is not loop.header and g.dominates(n, loop.header)]
